@@ -1,6 +1,6 @@
 """Writes /verif/known_findings.json (committed; never modified at run time)."""
 import json
-SEMP = ["C01", "C02", "C03", "C04", "C05", "C06", "C07", "C08"]
+SEMP = ["C01", "C02", "C03", "C04", "C05", "C06", "C07", "C08", "C19", "C20", "C21", "C22", "C23", "C25", "C26", "C31"]
 F = []
 
 def known(id, props, what, witness, match=None, match_any=None):
@@ -71,6 +71,20 @@ known("KF11-python-equality-stricter-than-unification", ["C18"],
       match_any=[{"clause": "eq-differs-from-unification", "cause": "quoted-vs-unquoted-atom"},
                  {"clause": "eq-differs-from-unification", "cause": "same-text-different-class"},
                  {"clause": "eq-differs-from-unification", "cause": "negation-spelling"}])
+
+EXP_CL = ["prob", "missing-instance", "spurious-answer", "export-changes-answer", "crash", "wrong-error", "answered-inconsistent-evidence", "spurious-inconsistent-evidence"]
+known("KF12-to-prolog-merges-groundings-of-an-ad", ["C25"],
+      "to_prolog prints every grounding of an annotated disjunction as the same clause and merges the auxiliary bodies of the groundings (0.3::a; 0.4::b :- h, \\+aux_1. printed twice with aux_1 :- g(c1). aux_1 :- g(c2).): the exported text has a different distribution",
+      "0.1::g(c1). 0.6::g(c2). 0.5::h. 0.3::a; 0.4::b :- d(Y), h, \\+g(Y). d(c1). d(c2). query(a).",
+      match_any=[{"clause": c, "variant": v, "ad_nonground": True} for c in EXP_CL for v in ("export", "export-dag")])
+known("KF13-to-prolog-aux-name-clash-for-negated-bodies", ["C25"],
+      "to_prolog gives two different auxiliary nodes of negated subgoals the same name (aux_1 :- g. aux_1 :- f.), so negated literals of the exported program refer to the wrong disjunction",
+      "0.3::f. 0.25::g. a :- f, \\+g. a :- f, c. b :- \\+g, g. b :- a. c :- \\+f. c :- a. query(a). query(b).",
+      match_any=[{"clause": c, "variant": v, "has_negation": True} for c in EXP_CL for v in ("export", "export-dag")])
+known("KF14-to-prolog-evidence-on-deterministic-nodes", ["C25"],
+      "to_prolog exports evidence on deterministically true/false nodes with the wrong definition or sign (evidence(a,false) on a false atom becomes 'a :- fail. a. evidence(a).')",
+      "0.5::f. a :- f, a. query(a). evidence(a, false).",
+      match_any=[{"clause": c, "variant": v, "has_evidence": True} for c in EXP_CL for v in ("export", "export-dag")])
 
 fixed("FX3-symbolic-normalize-parentheses", ["C05"], "75632d5",
       "SemiringSymbolic.normalize printed a / z without parentheses around a product z: expression evaluates to a wrong number",
